@@ -44,6 +44,7 @@ int sim_get_phase(void);
 void sim_set_cores(int n);            // what sysconf(_SC_NPROCESSORS_ONLN)/get_nprocs report
 void sim_set_affinity(int n);         // CPUs in the affinity mask sched_getaffinity/pthread_getaffinity_np report (taskset, cpuset cgroup); 0: all cores
 void sim_set_spurious(int on);        // allow spurious condvar wake-ups
+void sim_set_clock_ties(int on);      // readings by different threads may tie (each thread's own readings still increase)
 void sim_set_clock_jumps(int on);     // seeded forward jumps of the simulated clock
 void sim_set_step_cap(uint64_t cap);
 void sim_set_tso(int on);             // explore x86-TSO store buffering (store->load reordering) in this run
